@@ -3,19 +3,17 @@
 R1 tables (complete for this clause): all 2048 constants of the slicing tables equal the
    Castagnoli tables recomputed here from the reflected polynomial 0x82F63B78
    (thorough: also the byte-reversed tables under -DWORDS_BIGENDIAN).
-R2 byte accounting by path sums: SSE4.2 main loop consumes 8 bytes per step len/8 times, each
-   tail case n consumes exactly n bytes, every step reads at cursor + bytes already consumed and
-   feeds the running crc; slicing: head 1 byte per step until aligned or exhausted, main loop
-   len/8 x (4+4) bytes with table k serving byte 7-k, tail len&7 single bytes.
-R3 initial value 0xFFFFFFFF and final complement in both; the wrapper forwards (buf,size);
-   only the two implementations (and the first-call trampoline) are ever installed.
+R2 both implementations equal the standard CRC-32C for every content: decided over GF(2) by interpreting them on
+   buffers of symbolic bits (rules/crcrule.py) for every length 0..26 (72 thorough) and alignment; covers initial value,
+   polynomial, bit and byte order, the slicing combination, every tail length and the final complement.
+R3 the wrapper forwards (buf,size); only the two implementations (and the first-call trampoline) are ever installed.
 """
 import re
 from .common import *
 
 EXPLANATION = ("static rules: the 2048 table constants as they appear in the AST are compared with tables recomputed from the Castagnoli "
-               "polynomial; byte accounting of both implementations by abstract path evaluation (widths of the CRC steps along every tail "
-               "case sum to the case label and read at the running offset); structural recognition of the slicing-by-8 combination; "
+               "polynomial; both implementations interpreted over GF(2) on buffers of symbolic bits (exclusive-or, shifts, masks and lookups in "
+               "affine tables are exact there) and compared, as 32 affine forms per length and alignment, with the standard algorithm; "
                "see DESIGN 3 C17")
 DESIGN_REF = "DESIGN.md section 3, C17"
 COMPLETE = ("C17.R1 all 2048 slicing-table constants",)
@@ -73,115 +71,18 @@ def run(ctx, res):
         except BrokenAnalysis as e:
             res.notes.append("big-endian pass skipped: %s" % e)
 
-    # ---- R2 SSE4.2 -------------------------------------------------------------------
-    res.floor("C17.R2", 12)
+    # ---- R2 / R3 both implementations are the standard CRC-32C, decided over GF(2) (rules/crcrule.py) -------------
+    # (replaces the earlier byte-accounting and shape rules: initial value, polynomial, bit order, final complement, byte
+    # order of the loads, the slicing combination and every tail length are all part of the one equality of affine forms)
+    from . import crcrule
     f = prog.func("my_crc32c_sse42", "libmy/crc32c-sse42.c")
     if f is None:
         raise BrokenAnalysis("my_crc32c_sse42 not compiled in this configuration")
-    res.saw(f)
-    bufp, lenp = f.params[0]["name"], f.params[1]["name"]
-    # Shape-independent byte accounting: the function is evaluated abstractly with the length fixed to each of
-    # 0..39 (data bytes stay symbolic); for every length the CRC steps must consume exactly that many bytes, each at
-    # the running offset with the operand width of the step, chained through the running crc.
-    NLEN = 40 if ctx.tier == "quick" else 200
-    for n in range(NLEN):
-        ev = APE.APE(prog, cg, f, bound=8, start_env={lenp: ("c", n)}, max_paths=200000)
-        ev.run()
-        done = [p for p in ev.paths if p.end == "exit"]
-        sig = site(f, "len=%d(mod 8=%d)" % (n, n % 8)) if n < 16 else site(f, "len>=16:residue=%d" % (n % 8))
-        if not done:
-            res.bad("C17.R2", sig, "with the length fixed to %d no path returns (%d paths, ends %s)"
-                    % (n, len(ev.paths), sorted(set(p.end for p in ev.paths))), f.loc(f.body))
-            continue
-        for p in done:
-            off = 0
-            steps = []
-            crc = None
-            okchain = True
-            for e in p.events:
-                if e.kind == "store" and e.a == "p":
-                    b, o = APE.split_off(e.b)
-                    if b == bufp:
-                        off = o
-                elif e.kind == "call" and e.a in WIDTH:
-                    data = call_args(e.node)[1]
-                    post = any(x["k"] == "UnaryOperator" and x.get("op") == "++" and not x.get("prefix", True) for x in walk(data))
-                    rd = off - 1 if post else off
-                    d = strip(data)
-                    t = d.get("ct", d.get("t", ""))
-                    wbytes = {"unsigned char": 1, "unsigned short": 2, "unsigned int": 4, "unsigned long": 8}.get(t.replace("const ", ""))
-                    steps.append((WIDTH[e.a], rd, wbytes))
-                    if crc is not None and APE.vstr(e.b[0]) != APE.vstr(crc):
-                        okchain = False
-                    crc = e.c
-            total = sum(s_[0] for s_ in steps)
-            contiguous = True
-            cur = 0
-            for w, rd, wb in steps:
-                if rd != cur or wb != w:
-                    contiguous = False
-                cur += w
-            res.check(total == n and contiguous and okchain, "C17.R2", sig,
-                      "a buffer of %d bytes is consumed exactly once, in order, through chained CRC steps" % n,
-                      "for a buffer of %d bytes the SSE4.2 path consumes %d byte(s) with steps (width, offset, operand width) %s%s: such buffers get a wrong checksum "
-                      "(or memory outside the buffer is read)" % (n, total, steps[-6:], "" if okchain else ", crc chain broken"), f.loc(f.body), p.describe(f))
-    # ---- R2 slicing ---------------------------------------------------------------------
     s = prog.need("my_crc32c_slicing", su)
-    res.saw(s)
-    # main loop combination
-    terms = []
-    for n in walk(s.body):
-        if n["k"] == "ArraySubscriptExpr":
-            inner = strip(n["kids"][0])
-            if inner["k"] == "ArraySubscriptExpr" and canon(inner["kids"][0]) == "g_crc_slicing":
-                k = const_val(inner["kids"][1])
-                idx = canon(n["kids"][1])
-                terms.append((k, idx, n))
-    main_terms = [(k, idx) for k, idx, n in terms if "^" not in idx]
-    byte_terms = [(k, idx) for k, idx, n in terms if "^" in idx]
-    want = {}
-    for j, (var, sh) in enumerate([("crc", 0), ("crc", 8), ("crc", 16), ("crc", 24), ("next", 0), ("next", 8), ("next", 16), ("next", 24)]):
-        want[7 - j] = (var, sh)
-    got = {}
-    for k, idx in main_terms:
-        m = re.match(r"^\(?\(?(\w+)(?:>>#(\d+))?\)?(?:&#255)?\)?$", idx)
-        if m:
-            got[k] = (m.group(1), int(m.group(2) or 0))
-    res.check(got == want and len(main_terms) == 8, "C17.R2", site(s, "slicing-combination"),
-              "table k serves byte 7-k of the 8-byte group (crc^word0: tables 7..4, word1: tables 3..0), shifts 0/8/16/24",
-              "slicing-by-8 combination is %s, expected %s" % (got, want), s.loc(s.body))
-    res.check(len(byte_terms) == 2 and all(k == 0 and re.search(r"\(crc\^\*p\)&#255", idx) for k, idx in byte_terms), "C17.R2", site(s, "byte-steps"),
-              "head and tail byte steps use table 0 with (crc ^ byte) & 0xFF", "byte steps are %s" % byte_terms, s.loc(s.body))
-    # byte steps: crc = T0[..] ^ (crc >> 8)
-    bsteps = [n for n in walk(s.body) if n["k"] == "BinaryOperator" and n.get("op") == "=" and canon(n["kids"][0]) == "crc"
-              and re.match(r"^\(g_crc_slicing\[#0\]\[\(\(crc\^\*p\)&#255\)\]\^\(crc>>#8\)\)$", canon(n["kids"][1]))]
-    res.check(len(bsteps) == 2, "C17.R2", site(s, "byte-step-shape"), "byte step: crc = T0[(crc ^ b) & 0xFF] ^ (crc >> 8)", "byte steps have another shape", s.loc(s.body))
-    loops = [n for n in walk(s.body) if n["k"] == "ForStmt"]
-    res.check(len(loops) == 3, "C17.R2", site(s, "three-phases"), "head, main and tail loops", "%d loops" % len(loops))
-    if len(loops) == 3:
-        head, mainl, taill = loops
-        hc = canon(head["cond"])
-        res.check("&#3" in hc.replace(" ", "") and "len>#0" in hc and canon(head["inc"]).replace(" ", "") in ("(++p,--len)",), "C17.R2", site(s, "head-loop"),
-                  "head: one byte per step until 4-byte aligned or exhausted", "head loop is %s / %s" % (hc, canon(head["inc"])), s.loc(head))
-        mi = canon(mainl["init"]) if mainl.get("init") else ""
-        reads = [n for n in walk(mainl["body"]) if n["k"] == "UnaryOperator" and n.get("op") == "*" and "p" == canon(n["kids"][0])]
-        adv = [n for n in walk(mainl["body"]) if n["k"] == "CompoundAssignOperator" and canon(n["kids"][0]) == "p" and const_val(n["kids"][1]) == 4]
-        res.check(mi == "(nqwords=(len/#8))" and canon(mainl["inc"]) == "nqwords--" and len(reads) == 2 and len(adv) == 2, "C17.R2", site(s, "main-loop"),
-                  "main: len/8 steps, two 4-byte reads, cursor advanced by 4 after each", "main loop init %s, %d reads, %d advances" % (mi, len(reads), len(adv)), s.loc(mainl))
-        ti = canon(taill["init"]) if taill.get("init") else ""
-        res.check(ti == "(len&=#7)" and canon(taill["cond"]) == "(len>#0)" and canon(taill["inc"]).replace(" ", "") in ("(++p,len--)",), "C17.R2", site(s, "tail-loop"),
-                  "tail: len & 7 single bytes", "tail loop is %s / %s / %s" % (ti, canon(taill["cond"]), canon(taill["inc"])), s.loc(taill))
+    crcrule.check(ctx, res, "C17.R2", [("my_crc32c_sse42", "libmy/crc32c-sse42.c"), ("my_crc32c_slicing", su)])
 
     # ---- R3 ---------------------------------------------------------------------------------
-    res.floor("C17.R3", 5)
-    for fn, g_ in (("my_crc32c_sse42", f), ("my_crc32c_slicing", s)):
-        inits = decl_inits(g_)
-        ini_ok = any(const_val(v) == 0xFFFFFFFF for v in inits.values()) or \
-            any(n["k"] == "BinaryOperator" and n.get("op") == "=" and const_val(n["kids"][1]) == 0xFFFFFFFF for n in walk(g_.body))
-        rets = [n for n in walk(g_.body) if n["k"] == "ReturnStmt"]
-        fin_ok = len(rets) == 1 and strip(kids(rets[0])[0])["k"] == "UnaryOperator" and strip(kids(rets[0])[0])["op"] == "~"
-        res.check(ini_ok, "C17.R3", site(g_, "init"), "running value starts at 0xFFFFFFFF", "initial value is not 0xFFFFFFFF", g_.loc(g_.body))
-        res.check(fin_ok, "C17.R3", site(g_, "final"), "result is the complement of the running value", "result is not complemented", g_.loc(g_.body))
+    res.floor("C17.R3", 2)
     w = prog.need("mtbl_crc32c", "mtbl/crc32c_wrap.c")
     c = [n for n in w.calls() if not n.get("callee")]
     okw = len(c) == 1 and canon(c[0]["kids"][0]).endswith("my_crc32c") and [arg_role(w, a) for a in c[0]["kids"][1:]] == [("param", 0), ("param", 1)]
